@@ -2,9 +2,21 @@
    "conc ..." lines compare alone with concurrent answers in the harness. *)
 let starts s p = String.length s >= String.length p && String.sub s 0 (String.length p) = p
 
+(* a check whose model run was cut short by a limit AND reached a subject set twice legitimately depends on the goroutine
+   schedule (whichever path marks the set visited first decides whether its expansion still has depth left): its answers
+   are not compared, here as in the ENGINE suite *)
+let unlicensed (echeck_input : string) : bool =
+  try let (m, _) = Enginesuite.run echeck_input "unknown 0" in starts m "SKIP" with _ -> false
+
 let run (input : string) (obs : string) : string * string =
-  if starts input "conc " then
+  if starts input "conc stress " then begin
+    let rest = String.sub input 12 (String.length input - 12) in
+    if obs = "same" then ("SKIP", "pass")
+    else if unlicensed ("echeck " ^ rest) then ("SKIP", "na")
+    else ("SKIP", "fail:concurrent-answer-differs-from-the-answer-alone")
+  end
+  else if starts input "conc " then
     ("SKIP", if obs = "same" then "pass" else "fail:concurrent-answer-differs-from-the-answer-alone")
   else if starts obs "diverged" then
-    ("SKIP", "fail:concurrent-answer-differs-from-the-answer-alone")
+    (if unlicensed input then ("SKIP", "na") else ("SKIP", "fail:concurrent-answer-differs-from-the-answer-alone"))
   else Enginesuite.run input obs
